@@ -31,6 +31,17 @@ TRUSTED_BASE = [
 SNAPK = {'ITV_SNAP_EVERY': '1000000', 'ITV_SNAP_KINDS': 'I,C'}
 
 
+BIGENV = {'ITV_SNAP_EVERY': '50', 'ITV_SNAP_KINDS': 'C'}
+
+
+def big(kinds, tier, build='release'):
+    """large-state histories (harness/src/big.rs): kinds among map, set, key"""
+    # the template of history i of a batch is (seed + i) mod 6 (map, set) / mod 5 (key): consecutive
+    # batches (consecutive seeds) and histories cycle through all of them
+    shards, n, scale = (6, 2, 1600) if tier == 'quick' else (8, 12, 0)
+    return [(build, 'big' + k, n, scale, BIGENV) for k in kinds for _ in range(shards)]
+
+
 def seg32(build='release', shards=12):
     return [(build, 'seg32', shards, k, SNAPK) for k in range(shards)]
 
@@ -150,8 +161,8 @@ PROPS = {
     'C15': P(['seg'],
              [(['TILING'], ['seg'], ['I']), (['SPEC'], ['seg'], ['Q'])],
              [(['CHUNKS'], ['seg'], ['I'])],
-             [] + seg32(),
-             seg32() + seg32('debug') + [('release', 'seg', 1500, 400, None)],
+             [('debug', 'seg', 300, 40, None), ('debug', 'segwide', 150, 50, None)] + seg32(),
+             seg32() + seg32('debug') + [('release', 'seg', 1500, 400, None), ('debug', 'seg', 3000, 40, None), ('debug', 'segwide', 1500, 50, None), ('release', 'segwide', 200, 400, None)],
              sample_ops=['I', 'Q']),
     'C16': P(['seg'],
              [(['PURGE'], ['seg'], ['Q'])],
@@ -161,7 +172,7 @@ PROPS = {
              sample_ops=['Q'], extra=dict(quick=[('debug', 'segwide', 150, 50, None)], thorough=[('debug', 'segwide', 1500, 50, None), ('release', 'segwide', 200, 400, None)])),
     'C17': P(['maptree', 'settree'],
              [(['SPEC'] + DEAD, ['maptree', 'settree'], ['CHK', 'HOLD'])],
-             [(['ANS'], ['maptree', 'settree'], ['CHK', 'HOLD'])],
+             [(['ANS', 'HANDLES'], ['maptree', 'settree'], ['CHK', 'HOLD'])],
              [('debug', 'map', 300, 80, None), ('debug', 'set', 300, 80, None), ('release', 'hold', 1, 5, None)],
              [('debug', 'map', 3000, 80, None), ('debug', 'set', 3000, 80, None), ('release', 'map', 300, 1500, None), ('release', 'set', 300, 1500, None), ('release', 'hold', 1, 6, None)],
              sample_ops=['CHK'], extra=dict(quick=[('debug', 'mapedge', 60, 80, None)], thorough=[('debug', 'mapedge', 600, 80, None)])),
@@ -175,7 +186,7 @@ PROPS = {
              [(['CAP'], ['keytree', 'keylist'], ['V'])],
              [('debug', 'key', 300, 80, None), ('release', 'key', 60, 600, None), ('release', 'export', 1, 2000, {'ITV_SNAP_EVERY': '1000000'})],
              [('debug', 'key', 3000, 80, None), ('release', 'key', 600, 600, None), ('release', 'export', 1, 5000, {'ITV_SNAP_EVERY': '1000000'})],
-             sample_ops=['V'], direct=dict(quick=['bigexport', 300000], thorough=['bigexport', 5000000]), extra=dict(quick=[('debug', 'keyedge', 150, 80, None)], thorough=[('debug', 'keyedge', 1500, 80, None), ('release', 'keyedge', 100, 600, None)])),
+             sample_ops=['V'], direct=dict(quick=[['bigexport', 300000]], thorough=[['bigexport', 5000000]]), extra=dict(quick=[('debug', 'keyedge', 150, 80, None)], thorough=[('debug', 'keyedge', 1500, 80, None), ('release', 'keyedge', 100, 600, None)])),
     'C20': P(['keytree', 'keylist'],
              [(['LIVEONLY'], ['keytree', 'keylist'], None)],
              [(['CALLS'], ['keytree'], None)],
@@ -183,3 +194,50 @@ PROPS = {
              [('debug', 'key', 4000, 80, None), ('release', 'key', 600, 600, None), ('release', 'keyx', 1, 4, None)],
              sample_ops=['I', 'QL', 'QE', 'QB', 'QT', 'G'], extra=dict(quick=[('debug', 'keyedge', 150, 80, None)], thorough=[('debug', 'keyedge', 1500, 80, None), ('release', 'keyedge', 100, 600, None)])),
 }
+
+# large-state histories (harness/src/big.rs) for every property whose collections have thresholds
+# that short histories cannot reach; C10 runs them in the debug build (overflow checks, debug
+# assertions, unsafe-precondition checks), C18 as panic injection into the last operation
+BIG_FOR = {'C01': ['key'], 'C02': ['map', 'set', 'key'], 'C04': ['map'], 'C05': ['set'], 'C06': ['key'], 'C07': ['key'],
+           'C08': ['map', 'set'], 'C09': ['set'], 'C11': ['map', 'set', 'key'], 'C13': ['map', 'set', 'key'],
+           'C17': ['map', 'set'], 'C19': ['key'], 'C20': ['key']}
+for _pid, _kinds in BIG_FOR.items():
+    for _tier in ('quick', 'thorough'):
+        PROPS[_pid]['batches'][_tier] = PROPS[_pid]['batches'][_tier] + big(_kinds, _tier)
+for _tier in ('quick', 'thorough'):
+    PROPS['C10']['batches'][_tier] = PROPS['C10']['batches'][_tier] + big(['map', 'set', 'key'], _tier, build='debug')
+PROPS['C18']['batches']['quick'] = PROPS['C18']['batches']['quick'] + [('debug', 'biginject', 3, 600, None), ('debug', 'biginject', 3, 600, None)]
+PROPS['C18']['batches']['thorough'] = PROPS['C18']['batches']['thorough'] + [('debug', 'biginject', 21, 1200, None), ('debug', 'biginject', 21, 1200, None), ('release', 'biginject', 21, 1200, None), ('release', 'biginject', 21, 1200, None)]
+
+# direct checks on trees far deeper than the model runner replays (harness `itv deep n colls`): the
+# reference answers are immediate, each row is the property's own predicate on the implementation
+DEEP_FOR = {'C01': 'keytree', 'C02': 'maptree,settree,keytree', 'C04': 'maptree', 'C05': 'settree', 'C06': 'keytree', 'C07': 'keytree', 'C12': 'maptree,settree,keytree',
+            'C08': 'maptree', 'C09': 'settree', 'C10': 'maptree,settree,keytree'}
+for _pid, _colls in DEEP_FOR.items():
+    _d = PROPS[_pid].setdefault('direct', dict(quick=[], thorough=[]))
+    _d['quick'] = _d['quick'] + [['deep', 1 << 19, _colls]]
+    _d['thorough'] = _d['thorough'] + [['deep', 1 << 22, _colls]]
+    # a DEEP row of the property's collections and operation kinds is a failure of its predicate
+    # (C02 counts only the HEIGHT rows, level INV_HEIGHT; C10 only a process that dies)
+    if _pid == 'C12':
+        PROPS[_pid]['predicate'].append((['DEEP'], TREES, ['C']))   # only the clear-and-reuse rows
+    elif _pid not in ('C02', 'C10'):
+        _lv, _cl, _ok = PROPS[_pid]['predicate'][0]
+        PROPS[_pid]['predicate'][0] = (_lv + ['DEEP'], _cl, _ok)
+PROPS['C12']['batches']['quick'] = PROPS['C12']['batches']['quick'] + [('release', 'bigtwin', 3, 1000, BIGENV), ('release', 'bigtwin', 3, 1000, BIGENV)]
+PROPS['C12']['batches']['thorough'] = PROPS['C12']['batches']['thorough'] + [('release', 'bigtwin', 12, 0, BIGENV) for _ in range(4)]
+
+# fill / thin / clear / refill cycles at sizes beyond the model runner, slot partition checked on the
+# implementation's arena at every stage (harness `itv cycle n colls`); 7919 must not divide n
+CYCLE_FOR = {'C02': 'maptree,settree,keytree', 'C04': 'maptree', 'C05': 'settree', 'C06': 'keytree',
+             'C10': 'maptree,settree,keytree', 'C11': 'maptree,settree,keytree'}
+for _pid, _colls in CYCLE_FOR.items():
+    _d = PROPS[_pid].setdefault('direct', dict(quick=[], thorough=[]))
+    _d['quick'] = _d['quick'] + [['cycle', 5000, _colls], ['cycle', 70000, _colls]]
+    _d['thorough'] = _d['thorough'] + [['cycle', 5000, _colls], ['cycle', 70000, _colls], ['cycle', 1000000, _colls]]
+
+# long bucket lists and thousands of expired copies in the segment tree (harness/src/big.rs, gen_big_seg)
+SEGENV = {'ITV_SNAP_EVERY': '1000000', 'ITV_SNAP_KINDS': 'Q'}
+for _pid in ('C03', 'C16', 'C10'):
+    PROPS[_pid]['batches']['quick'] = PROPS[_pid]['batches']['quick'] + [('debug', 'bigseg', 6, 0, SEGENV), ('release', 'bigseg', 6, 0, SEGENV)]
+    PROPS[_pid]['batches']['thorough'] = PROPS[_pid]['batches']['thorough'] + [('debug', 'bigseg', 60, 0, SEGENV), ('release', 'bigseg', 60, 0, SEGENV)]
